@@ -6,6 +6,7 @@ import VC2.Model.SymReDriver
 import VC2.Model.FixedDictDriver
 import VC2.Model.StreamDriver
 import VC2.Model.FileFormatDriver
+import VC2.Model.CodecCsvDriver
 open VC2 VC2.Gen
 
 def parseInts (ws : List String) : Option (List Int) :=
@@ -34,6 +35,8 @@ def step (line : String) : String :=
   | "re" :: rest => VC2.Model.SymRe.handleRe rest
   | "fd" :: rest => VC2.Model.FixedDict.handleFd rest
   | "vd" :: rest => VC2.Model.Stream.handleVd rest
+  | "cf" :: rest => VC2.Model.CodecCsv.handleCf rest
+  | "ci" :: rest => VC2.Model.CodecCsv.handleCi rest
   | "ff" :: rest => VC2.Model.FileFormat.handleFf rest
   | "vs" :: rest => VC2.Model.Constraint.handleVs rest
   | "ct" :: rest => VC2.Model.Constraint.handleCt rest
